@@ -26,6 +26,7 @@ RULE = (
     "TypeError for the error cases. non-trivial = a supplied variable occurs with exponent >= 2 in a term "
     "with non-zero coefficient and its value is not 0 or 1."
 )
+LEVEL_TEXT += (" Integer carriers of large values with inexact coefficients (result is a float and must not wrap in the integers), and scalar integer values whose square/cube leaves 32 bits carried by every numpy integer type that holds them.")
 ASSUMPTIONS = [
     "integer carriers of any width and Python ints keep the exact result below 2**62 (else the case is discarded and counted); float16/float32 carriers get small dyadic values whose powers are exact in that width",
     "a None placeholder combined with a keyword for the same name is not generated (statement leaves it open)",
